@@ -764,10 +764,10 @@ def corpus():
 
 
 def cases(rng, tier):
-    n = 260 if tier == "quick" else 3000
+    n = 260 if tier == "quick" else 2000
     for _ in range(n):
         yield gen_case(rng, tier)
-    ng = 30 if tier == "quick" else 200
+    ng = 30 if tier == "quick" else 150
     for _ in range(ng):
         c = gen_case(rng, tier)
         c["fmt"] = "git"
@@ -871,7 +871,8 @@ def finding_matches(fid, inp, obs, why):
         return ((why.startswith("apply of a conflict-free transform raised InconsistentDelta")
                  or why.startswith("preview differs from the applied tree")) and _reversion(inp))
     if fid == "C14-dead-versioned-child":
-        return (why.startswith("apply of a conflict-free transform raised InconsistentDelta")
+        return ((why.startswith("apply of a conflict-free transform raised InconsistentDelta")
+                 or why.startswith("preview differs from the applied tree (paths"))
                 and not _reversion(inp) and _dead_versioned(inp))
     if fid == "C14-git-preview-is-versioned":
         return why.startswith("GitPreviewTree.is_versioned raised AttributeError") and inp.get("fmt") == "git"
